@@ -39,7 +39,7 @@ def cases(draw, maxfr=16, maxdim=20):
     om0 = draw(st.integers(-3200, 3200)) / 16.0
     step = draw(st.sampled_from([1, 4, 16, -4, 3])) / 16.0
     empty = draw(st.booleans())
-    imtype = draw(st.sampled_from(["f32", "f32", "u16", "i32", "f64", "fortran", "strided"]))
+    imtype = draw(st.sampled_from(["f32", "f32", "u16", "i32", "f64", "fortran", "strided", "small", "small"]))
     return dict(kind=kind, nfr=nfr, ns=ns, nf=nf, fill=fill, seed=seed, thpos=thpos, om0=om0, step=step, empty=empty,
                 imtype=imtype)
 
@@ -107,6 +107,11 @@ def build(case):
     vals = rng.randint(1, 50, (nfr, ns, nf))
     vol = np.where(occ, vals, 0).astype(np.float32)
     th = {"low": 0.5, "mid": 10.5, "at": 10.0}[case["thpos"]]
+    if case.get("imtype") == "small":
+        # normalised data (divided by a monitor / flat field): the same pattern 1024 times weaker, whole peaks sum
+        # to less than 0.1; the scale is a power of two, so nothing is rounded
+        vol = vol * np.float32(2.0 ** -10)
+        th = th * 2.0 ** -10
     omegas = case["om0"] + case["step"] * np.arange(nfr)
     return vol, th, omegas
 
@@ -257,7 +262,8 @@ def check(case, rec=None):
         return [exc_failure("labelimage.finalise", e)]
     fails += compare("labelimage", out.getvalue(), vol, th, omegas, exp)
     # ---- driver 2: peaksearcher.peaksearch with three thresholds at once
-    ths = sorted(set([th, 0.5, 20.5]))
+    vs = 2.0 ** -10 if case.get("imtype") == "small" else 1.0
+    ths = sorted(set([th, 0.5 * vs, 20.5 * vs]))
     outs = {t: io.StringIO() for t in ths}
     labims = {t: labelimage.labelimage(vol[0].shape, fileout=outs[t], sptfile=io.StringIO()) for t in ths}
     for k in range(len(vol)):
